@@ -70,18 +70,24 @@ def gen_model(rng):
                 src.append('set_correlation(%r, %s, %s)' % (rng.choice([0.5, -0.25, 0.9]), vs[0], vs[1]))
             reals.extend(vs)
         elif k == 'ci':
-            v = name('z'); u = rng.choice(['%r' % rng.choice(UVALS), '(%r, %r)' % (rng.choice(UVALS), rng.choice(UVALS)), '(%r, 0)' % rng.choice(UVALS)])
+            # a complex uncertainty with ONE ZERO component is a legitimate boundary declaration (C11)
+            v = name('z'); u = rng.choice(['%r' % rng.choice(UVALS), '(%r, %r)' % (rng.choice(UVALS), rng.choice(UVALS)), '(%r, 0)' % rng.choice(UVALS),
+                                           '(0, %r)' % rng.choice(UVALS), '(%r, 0.0)' % rng.choice(UVALS), '(0.0, %r)' % rng.choice(UVALS)])
             src.append('%s = ucomplex(%r, %s, df=%s, label=%s)' % (v, cval(), u, df(), lab())); cplx.append(v)
         elif k == 'cd':
             v = name('z'); a, b = rng.choice(UVALS), rng.choice(UVALS); r = rng.choice([0.5, -0.3, 0.0])
             if r:
                 src.append('%s = ucomplex(%r, (%r, %r, %r, %r), label=%s)' % (v, cval(), a * a, r * a * b, r * a * b, b * b, lab()))
             else:
+                if rng.random() < 0.4: a, b = rng.choice([(a, 0.0), (0.0, b)])       # one zero component, dependent
                 src.append('%s = ucomplex(%r, (%r, %r), label=%s, independent=False)' % (v, cval(), a, b, lab()))
             cplx.append(v)
         elif k == 'cens':
             vs = [name('z') for _ in range(2)]
-            src.append('%s = multiple_ucomplex(%r, %r, %s%s)' % (', '.join(vs), [cval() for _ in vs], [(rng.choice(UVALS), rng.choice(UVALS)) for _ in vs], rng.choice(['6', 'inf']),
+            def upair():
+                c = rng.random()
+                return (rng.choice(UVALS), 0.0) if c < 0.2 else (0.0, rng.choice(UVALS)) if c < 0.4 else (rng.choice(UVALS), rng.choice(UVALS))
+            src.append('%s = multiple_ucomplex(%r, %r, %s%s)' % (', '.join(vs), [cval() for _ in vs], [upair() for _ in vs], rng.choice(['6', 'inf']),
                                                                   (', label_seq=%r' % ['e%d' % i for i in range(2)]) if rng.random() < 0.5 else ''))
             cplx.extend(vs)
         elif k == 'const':
@@ -359,7 +365,19 @@ def case_term(m, calls, rng=None):
         if ycomplex:
             tsnap['y.real'] = snap.yval(y.real); tsnap['y.imag'] = snap.yval(y.imag)
             if 'ymag' in ns: tsnap['ymag2'] = snap.yval(ns['ymag'])
-        allcalls = [('y', fn, kw) for fn, kw in calls] + [c for c in sequence_calls(rng, ycomplex) if c[0] in tsnap]
+        # the declared numbers themselves: their shape is checked by Budget.decl_ok, and two of them are reported on
+        decls = []
+        for v in m['reals'] + m['cplx'] + m['consts']:
+            o = ns[v]
+            for x in ((o.real, o.imag) if isinstance(o, lib.UncertainComplex) else (o,)):
+                decls.append(snap.ureal(x))
+        inputs = m['cplx'] + m['reals']
+        picked = ([rng.choice(m['cplx'])] if m['cplx'] else []) + ([rng.choice(inputs)] if inputs else [])
+        extra = []
+        for v in picked:
+            tsnap[v] = snap.yval(ns[v])
+            extra.append((v, 'budget', {'trim': '0'})); extra.append((v, rng.choice(['budget', 'components']), dict(rng.choice(SEQ_KW))))
+        allcalls = [('y', fn, kw) for fn, kw in calls] + [c for c in sequence_calls(rng, ycomplex) if c[0] in tsnap] + extra
         # influences: evaluate the expressions and take their snapshots before any report
         prepared = []
         for t, fn, kw in allcalls:
@@ -391,7 +409,7 @@ def case_term(m, calls, rng=None):
     st, ncx = snap.state()
     tbl = oracle_table(rec.log)
     run = [(t, fn, {k: v for k, v in kw.items() if k != 'influences_obj'}) for t, fn, kw, _ in prepared]
-    return '(let NN := FNum %s in run_tcalls NN (%s) %s 0%%Z %s)' % (tbl, st, ncx, clist(ctxt)), obs, run, changes, len(watched)
+    return '(let NN := FNum %s in run_case17 NN (%s) %s %s %s)' % (tbl, st, ncx, clist(decls), clist(ctxt)), obs, run, changes, len(watched)
 
 def classify(m, ns):
     from GTC import lib
@@ -400,7 +418,7 @@ def classify(m, ns):
             'partial': bool(m['partial']), 'n_inputs': len(m['reals']) + len(m['cplx']), 'results': len(m['results'])}
 
 def correspondence(rng, tier):
-    nmodels = 260 if tier == 'quick' else 6000
+    nmodels = 220 if tier == 'quick' else 4000
     ncalls = 14
     terms = []; meta = []
     dist = {'y_real': 0, 'y_complex': 0, 'partial_complex_use': 0, 'with_intermediates': 0, 'calls_budget': 0, 'calls_components': 0,
@@ -444,6 +462,12 @@ def correspondence(rng, tier):
     for i, v in enumerate(values):
         if v is None or v == -1: continue
         m, run, obs = meta[i]
+        if v >= 90000000:
+            mismatches.append({'kind': 'declared-number-vectors-differ-from-model', 'python': m['src'], 'declared_part_index': v - 90000000,
+                               'meaning': 'the component vectors of a declared number are not what Kernel.elementary / Budget.decl_ok give: '
+                                          'its own leaf with its standard uncertainty (zero included) as the only entry; parts in order '
+                                          'of m.reals + m.cplx (real, imag) + m.consts: %r' % (m['reals'] + m['cplx'] + m['consts'],)})
+            continue
         ci = v // 10000; code = v % 10000 - 10
         t, fn, kw = run[ci] if ci < len(run) else ('y', '?', {})
         mismatches.append({'kind': 'budget-model-vs-implementation', 'python': m['src'], 'call': call_src(fn, kw, t),
@@ -487,12 +511,29 @@ def check_real_rows(name, t, rows, leaves):
             if rp.u_component(t, x) != 0 and uid not in uids: return '%s(%s, trim=0) misses %s' % (fn, name, uid)
     return None
 
+def m_decl(m, v):
+    for l in m['src']:
+        if l.split(' = ')[0].replace(' ', '').split(',').count(v): return l
+    return v
+
 def spec_check(m, ns):
     """the property for one model, INCLUDING report sequences: the complete real reports of y.real, y.imag and magnitude(y)
     are taken before any complex report of y, the single-report checks (which produce the complex reports) run, and the real
     reports -- of the same objects and of a freshly evaluated magnitude(y) -- must be the same afterwards"""
-    from GTC import lib, core
+    from GTC import lib, core, reporting as rp
     y = ns['y']
+    # a declared number reports exactly itself (a constant: nothing), whatever its uncertainties -- one zero component included
+    for v in m['reals'] + m['cplx'] + m['consts']:
+        o = ns[v]
+        if isinstance(o, lib.UncertainComplex):
+            ur, ui = o.real.u, o.imag.u
+            want = [(repr(o.uid), math.sqrt((ur * ur + ui * ui) / 2))] if o.is_elementary else []
+        else:
+            want = [(repr(o.uid), o.u)] if o.is_elementary else []
+        for fn in ('budget', 'components'):
+            got = [(repr(r.uid), r.u) for r in getattr(rp, fn)(o, trim=0)]
+            if len(got) != len(want) or any(g[0] != w[0] or not close(g[1], w[1]) for g, w in zip(got, want)):
+                return {'class': [], 'what': '%s(%s, trim=0) of the declared number %s is %r, expected %r' % (fn, v, m_decl(m, v), got, want)}
     seq = []
     if isinstance(y, lib.UncertainComplex):
         leaves = {}
@@ -548,6 +589,10 @@ def spec_check_single(m, ns):
         if not z.is_elementary: continue
         pr, pi = present(z.real), present(z.imag)
         if not (pr or pi): continue
+        if pr != pi and v not in m['partial']:
+            # NOT the known finding complex-partial-use: the model never takes z.real / z.imag of this input alone
+            return {'class': [], 'what': 'y is computed from the complex input %s as a whole, but the leaf of its %s component is absent from '
+                                         'the component vectors of y (u_component = %r)' % (v, 'imaginary' if pr else 'real', tuple(rp.u_component(y, z)))}
         c = rp.u_component(y, z)
         ideal[z.uid] = u_bar_exact(c)
         if not yc:
@@ -606,7 +651,11 @@ def spec_check_single(m, ns):
                 return {'class': sorted(cls), 'what': 'trim=%r kept %r, expected %r' % (kw['trim'], rows, want)}
         if kw.get('max_number') == 1 and full and (len(rows) != 1 or rows[0][1] != max(us)):
             return {'class': sorted(cls), 'what': 'max_number=1 did not keep the largest'}
-    # influences=[...]: exactly the requested ones
+    # influences=[...]: exactly the requested ones -- none when none are requested
+    for fn in (rp.budget, rp.components):
+        for empty in ([], ()):
+            if list(fn(y, influences=empty, trim=0)) != []:
+                return {'class': [], 'what': '%s(y, influences=%r, trim=0) lists %d rows, none were requested' % (fn.__name__, empty, len(fn(y, influences=empty, trim=0)))}
     req = [v for v in m['reals'] if ns[v].is_elementary][:3]
     if req:
         rows = rp.budget(y, influences=[ns[v] for v in req], trim=0, key=None)
